@@ -377,6 +377,12 @@ func (m *ldbManager) Pop() error {
 	frontierIdentifier := GetFrontierIdentifier(m.Frontier())
 	rollbackPatch := m.getRollback(frontierIdentifier.Height)
 
+	// cached historical views were computed relative to the frontier which is being removed
+	m.changes.Lock()
+	m.l1Cache.Purge()
+	m.l2Cache.Purge()
+	m.changes.Unlock()
+
 	if err := ApplyPatch(NewLevelDBWrapper(m.ldb).Subset(frontierByte), rollbackPatch); err != nil {
 		return err
 	}
